@@ -126,3 +126,13 @@ Theorem C17_collision_invalid_nick_refuted :
       Ok [[cmd_nick [195; 188; 95]]; [cmd_nick [195; 188; 95]]].
 Proof. exact collision_invalid_repeats. Qed.
 Print Assumptions C17_collision_invalid_nick_refuted.
+
+(* Not a defect but the reason for the "names the nickname it refuses" hypothesis: the handler
+   keeps no counter, so numerics that carry no nickname (here "433 *", before 001) are all
+   answered alike. *)
+Theorem C17_collision_unnamed_repeats :
+  session (mkPnCfg (bs "me") true None) pn_init (bs "me")
+          [IEvent (mkEvent s_433 None [bs "*"]); IEvent (mkEvent s_433 None [bs "*"])] =
+    Ok [[cmd_nick (bs "me_")]; [cmd_nick (bs "me_")]].
+Proof. exact collision_unnamed_repeats. Qed.
+Print Assumptions C17_collision_unnamed_repeats.
